@@ -966,6 +966,45 @@ pub fn race_a_sentinels() -> Vec<Program> {
             }
         }
     }
+    // S33: the spawn edge covers what the parent did BEFORE the spawn, nothing after it. The
+    // parent's first access after the spawn (of the kinds that do not advance its clock by
+    // themselves: unsync_load, with_mut, a cell access) against an access of the child - or of a
+    // third thread one message away from the child - that only runs once a relaxed flag shows
+    // that the parent's access is over.
+    {
+        let objs = |cells: usize| Objs { atomics: vec![0, 0], cells, chans: 1, ..Default::default() };
+        // (parent's access, conflicting access, needs a cell)
+        let pairs: Vec<(Op, Op, usize)> = vec![
+            (K::UnsyncLoad { a: 0 }.into(), st(0, 1, Rlx), 0),
+            (K::UnsyncLoad { a: 0 }.into(), fadd(0, 1, Rlx), 0),
+            (K::WithMut { a: 0 }.into(), ld(0, Rlx), 0),
+            (rd(0), wr(0), 1),
+            (wr(0), rd(0), 1),
+            (wr(0), wr(0), 1),
+        ];
+        for (pa, ca, cells) in pairs {
+            // child: reads the flag, performs the conflicting access if it is up
+            let mut guarded = ca.clone();
+            guarded.g = Some(Guard { idx: 0, res: Res::V(1) });
+            let child = vec![ld(1, Rlx), guarded.clone()];
+            out.push(with_main("S33-after-spawn", objs(cells), vec![], vec![child], vec![pa.clone(), st(1, 1, Rlx)], vec![]));
+            // control: the parent's access BEFORE the spawn is ordered
+            let mut unguarded = ca.clone();
+            unguarded.g = None;
+            out.push(with_main("S33-before-spawn", objs(cells), vec![pa.clone()], vec![vec![unguarded]], vec![], vec![]));
+            // third thread: the child forwards through a channel (cell pairs only: programs with
+            // channels are decided by the SC machine, which does not track non-atomic accesses
+            // of atomics)
+            if cells == 0 {
+                continue;
+            }
+            let t1 = vec![ld(1, Rlx), K::Send { ch: 0, v: 1 }.when(0, Res::V(1))];
+            let mut g2 = ca.clone();
+            g2.g = Some(Guard { idx: 0, res: Res::Ok(1) });
+            let t2 = vec![K::TryRecv { ch: 0 }.into(), g2];
+            out.push(with_main("S33-after-spawn-3", objs(cells), vec![], vec![t1, t2], vec![pa.clone(), st(1, 1, Rlx)], vec![]));
+        }
+    }
     out
 }
 
